@@ -20,7 +20,7 @@ for f in sorted(glob.glob(os.path.join(HERE, "seeded", "*", "meta.json"))):
             break
     what = re.sub(r"\s+", " ", what)[:230]
     conf = m["confirmed"]
-    ok = conf["patch_applies_to_repo_head"] and conf["pinned_suite_passes_with_patch"] and conf["demo_exit_code_clean_tree"] == 0 and conf["demo_exit_code_with_patch"] != 0
+    ok = (conf["patch_applies_to_repo_head"] or conf.get("applied_to_commit")) and conf["pinned_suite_passes_with_patch"] and conf["demo_exit_code_clean_tree"] == 0 and conf["demo_exit_code_with_patch"] != 0
     rows.append(f"| {m['id']} | {m['breaks_property']} | {what} | {'yes' if ok else 'NO'} | {', '.join(caught) or '-'} | {', '.join(missed) or '-'} |")
 table = (
     "### 8.7 Which checks catch which seeded changes\n\n"
